@@ -32,6 +32,15 @@ func Cases(cases []*synth.Case) (*Loaded, error) {
 	if err != nil {
 		return nil, err
 	}
+	return loadFrom(dir, mod, cases)
+}
+
+// Reload loads the same scratch module again in this process: fresh packages, fresh types.Named
+// pointers and a fresh FileSet (whose bases follow the schedule of the parser goroutines), the same
+// package paths. The result shares the directory of l: close l only.
+func (l *Loaded) Reload(cases []*synth.Case) (*Loaded, error) { return loadFrom(l.Dir, l.Mod, cases) }
+
+func loadFrom(dir string, mod *synth.Module, cases []*synth.Case) (*Loaded, error) {
 	out := &Loaded{Dir: dir, Mod: mod, Pkgs: map[string]*packages.Package{}, Bad: map[string]string{}}
 	patterns := make([]string, len(cases))
 	for i, c := range cases {
